@@ -22,7 +22,7 @@ import ast
 import z3
 from lark import Token
 
-from pyvc.interp import explore
+from pyvc.interp import explore, NativeAbs, AbsSeq, AbsCat, AbsAcc, LoopContract
 from pyvc.loader import Loader, FuncInfo
 from pyvc.values import Obj, Tpl, Atom
 from pyvc.vc import Check
@@ -32,7 +32,7 @@ from . import irkit, tkit, emit, catalog, c05, c12
 from .common import WORKERS, conc_vt, run_mutants
 
 PROP = "C16"
-FILTER = r"fbody#|#den-independent|get_exec_op_list#|#registered|lemma#|code_format#|#total|#raw|#emit|#loop|#frame|update_stmt|declared-at-most-once"
+FILTER = r"fbody#|#den-independent|get_exec_op_list#|flatten_list#|#registered|lemma#|code_format#|#total|#raw|#emit|#loop|#frame|update_stmt|declared-at-most-once"
 
 MUTANTS = [
     {"name": "fbody: READ_STATEMENTS layout skips the read block", "file": "rzilcompiler/Transformer/RZILTransformer.py",
@@ -43,6 +43,8 @@ MUTANTS = [
      "new": "        if self.code_format in [CodeFormat.EXEC_CLASSES]:\n            res = self.emit_write_block(holder, res)\n\n        if self.code_format in [CodeFormat.EXEC_CLASSES]:\n            res = self.emit_exec_block(holder, res)"},
     {"name": "get_exec_op_list: operands of nested pures not followed", "file": "rzilcompiler/Transformer/Effects/Effect.py",
      "old": "                return [x] + [get_ops(y) for y in x.ops]", "new": "                return [x]"},
+    {"name": "get_exec_op_list: every second operand of the effect skipped", "file": "rzilcompiler/Transformer/Effects/Effect.py",
+     "old": "        return flatten_list([get_ops(o) for o in self.effect_ops])\n\n    def get_op_list", "new": "        return flatten_list([get_ops(o) for o in self.effect_ops[::2]])\n\n    def get_op_list"},
     {"name": "get_exec_op_list: nested effects not followed", "file": "rzilcompiler/Transformer/Effects/Effect.py",
      "old": "            elif isinstance(x, (Hybrid, Effect)):\n                return x.get_exec_op_list()", "new": "            elif isinstance(x, (Hybrid, Effect)):\n                return []"},
     {"name": "update_assign_src: compound operation node not registered", "file": "rzilcompiler/Transformer/RZILTransformer.py",
@@ -198,7 +200,174 @@ def gen_exec_list(loader, check, replay_on=True):
                 got, want = p.value, p.state["want"]
                 ok = isinstance(got, list) and {id(x) for x in got} == {id(x) for x in want} and len(got) == len(want)
                 check.ob("get_exec_op_list#returns-exactly-the-reachable-executable-pures", lab, p.ctx.pc, ok, detail=f"{got!r} vs {want!r}")
-    check.bounded.append("get_exec_op_list: six tree shapes covering every recursion case of the function (PureExec operands, Hybrid, nested Effect, leaves)")
+    # any operand tree: one unfolding per operand kind + the recursion through the function's own contract (the six shapes stay as ground instances)
+    gen_exec_list_induction(loader, check)
+
+
+# ------------------------------------------------------------------------------------------ get_exec_op_list, any tree (structural induction)
+class GTok(NativeAbs):
+    """the list a recursive call get_ops(x) returns, by the contract of get_ops:  flat(get_ops(x)) == R(x)"""
+    pytype = list
+
+    def __init__(self, x):
+        self.x = x
+
+    def hasattr(self, it, name):
+        return hasattr([], name)
+
+    def __repr__(self):
+        return f"G({self.x!r})"
+
+
+class OpsOf(LoopContract):
+    """operand list of an executable pure / of an effect: any length; never iterated by the code under proof except through a comprehension"""
+    name = "get_exec_op_list.operands"
+
+    def __init__(self, loader):
+        self.loader = loader
+
+    def element_kinds(self):
+        return ["operand"]
+
+    def make_element(self, it, kind, seq):
+        o = irkit.mk_var(it, "probe", (True, 32))
+        o.label = "probe"
+        return o
+
+
+def gen_exec_list_induction(loader, check):
+    """R(x) = [x] ++ concat(R(y) for y in x.ops)   if x is an executable pure (hybrids are)
+       R(x) = x.get_exec_op_list()                  if x is a (non-pure) effect      (= concat(R(o) for o in x.effect_ops))
+       R(x) = []                                     otherwise
+    One unfolding of get_ops per case with the recursive calls replaced by the contract  flat(get_ops(y)) == R(y), and
+    get_exec_op_list == flat([get_ops(o) for o in effect_ops]) for an operand list of any length (flatten_list through its own,
+    separately proved, contract).  By induction over the (finite, acyclic) operand tree: get_exec_op_list(e) == concat R(o)."""
+    Eff = irkit.C(loader, "Effect")
+    geo = Eff.methods["get_exec_op_list"]
+    flat_q = loader.load("rzilcompiler.Transformer.helper").globals["flatten_list"].qualname
+    AT = irkit.enum(loader, "ArithmeticOp", "ArithmeticType")
+    ATy = irkit.enum(loader, "Assignment", "AssignmentType")
+    HT = irkit.enum(loader, "Hybrid", "HybridType")
+
+    def get_ops_contract(it, f, args, kwargs):
+        return GTok(args[0])
+
+    def flat_contract(it, f, args, kwargs):
+        return AbsAcc("flat", z3.Int("n_flat"), {"flat_of": args[0]})
+
+    def mk_root(it, ops):
+        e = it.call(irkit.C(loader, "Assignment"), ["root", ATy("="), irkit.mk_var(it, "d", (True, 32)), irkit.mk_var(it, "s", (True, 32))], {})
+        e.fields["effect_ops"] = ops
+        return e
+
+    def mk_x(it, kind):
+        if kind in ("executable pure", "hybrid"):
+            if kind == "hybrid":
+                # a hybrid is an executable pure as well as an effect: it is listed itself and its operands are followed
+                v = irkit.mk_var(it, "v", (True, 32))
+                x = it.call(irkit.C(loader, "PostfixIncDec"), ["x", v, v.fields["value_type"], HT("++")], {})
+            else:
+                x = it.call(irkit.C(loader, "ArithmeticOp"), ["x", irkit.mk_var(it, "a", (True, 32)), irkit.mk_var(it, "b", (True, 32)), AT("+")], {})
+            ops = AbsSeq("x.ops", OpsOf(loader))
+            it.ctx.assume(ops.length >= 0)
+            x.fields["ops"] = ops
+            return x
+        if kind == "effect":
+            x = it.call(irkit.C(loader, "Assignment"), ["x", ATy("="), irkit.mk_var(it, "xd", (True, 32)), irkit.mk_var(it, "xs", (True, 32))], {})
+            tok = AbsSeq("R(x)")
+            x.ghost["R"] = tok
+
+            def stub(it_, obj, args, kwargs):
+                obj.ghost["ncalls"] = obj.ghost.get("ncalls", 0) + 1
+                return tok
+            x.stubs["get_exec_op_list"] = stub
+            return x
+        if kind == "variable":
+            return irkit.mk_var(it, "x", (True, 32))
+        if kind == "immediate-like string":
+            return "HEX_REG_FIELD"
+        return None
+
+    check.under_contract(loader, geo)
+    # 1. one unfolding of get_ops for every kind of operand
+    for kind in ("executable pure", "hybrid", "effect", "variable", "immediate-like string", "None"):
+        check.instances_declared += 1
+
+        def setup(it, kind=kind):
+            it.ctx.contracts["<local>.get_ops"] = get_ops_contract
+            it.ctx.contracts[flat_q] = flat_contract
+            x = mk_x(it, kind)
+            return {"x": x, "e": mk_root(it, [x])}
+        ex = explore(loader, setup, lambda it, st: it.call(it.getattr_(st["e"], "get_exec_op_list"), [], {}), target="<local>.get_ops")
+        check.absorb(ex, f"get_exec_op_list unfold {kind}")
+        if ex.paths:
+            check.instances_generated += 1
+        for i, p in enumerate(ex.paths):
+            pi = f"operand={kind} path={i}"
+            check.path_obligations(p, pi)
+            if p.outcome != "return":
+                check.ob("get_exec_op_list#total", pi, p.ctx.pc, False, detail=f"raises {p.value!r}")
+                continue
+            r, x = p.value, p.state["x"]
+            arg = r.ghost.get("flat_of") if isinstance(r, AbsAcc) else None
+            ok_outer = isinstance(arg, list) and len(arg) == 1 and r.tail == []
+            check.ob("get_exec_op_list#induction: the result is the flattening of one get_ops result per operand", pi, p.ctx.pc, bool(ok_outer), detail=repr(r))
+            if not ok_outer:
+                continue
+            g = arg[0]
+            if kind in ("executable pure", "hybrid"):
+                ops = x.fields["ops"]
+                ok = isinstance(g, AbsCat) and len(g.head) == 1 and g.head[0] is x and g.tail == [] and g.base.contract is ops.contract and g.base.length is ops.length \
+                    and len(g.base.maps) == 1 and not g.base.meta
+                check.ob("get_exec_op_list#induction.unfold: R(pure) = [pure] ++ (get_ops(y) for every operand y, in order)", pi, p.ctx.pc, bool(ok), detail=repr(g))
+                p.state["mapped"] = g.base if ok else None
+            elif kind == "effect":
+                check.ob("get_exec_op_list#induction.unfold: R(nested effect) = its own get_exec_op_list(), asked once", pi, p.ctx.pc,
+                         g is x.ghost["R"] and x.ghost.get("ncalls", 0) == 1, detail=repr(g))
+            else:
+                check.ob("get_exec_op_list#induction.unfold: R(leaf) = []", pi, p.ctx.pc, g == [], detail=repr(g))
+    # 2. the mapped function of the comprehensions is get_ops (element-wise), for operand lists of any length
+    for where in ("effect_ops of the effect", "ops of an executable pure"):
+        check.instances_declared += 1
+
+        def setup2(it, where=where):
+            it.ctx.contracts["<local>.get_ops"] = get_ops_contract
+            it.ctx.contracts[flat_q] = flat_contract
+            if where.startswith("effect_ops"):
+                ops = AbsSeq("effect_ops", OpsOf(loader))
+                it.ctx.assume(ops.length >= 0)
+                return {"ops": ops, "e": mk_root(it, ops), "x": None}
+            x = mk_x(it, "executable pure")
+            return {"ops": x.fields["ops"], "e": mk_root(it, [x]), "x": x}
+        tgt = None if where.startswith("effect_ops") else "<local>.get_ops"
+
+        def run2(it, st):
+            r = it.call(it.getattr_(st["e"], "get_exec_op_list"), [], {})
+            arg = r.ghost.get("flat_of") if isinstance(r, AbsAcc) else None
+            d = arg if st["x"] is None else (arg[0].base if isinstance(arg, list) and arg and isinstance(arg[0], AbsCat) else None)
+            st["derived"] = d
+            if isinstance(d, AbsSeq) and len(d.maps) == 1 and d.contract is st["ops"].contract:
+                probe = d.contract.make_element(it, "operand", d)
+                st["probe"] = probe
+                st["image"] = d.maps[0](it, probe)
+            return r
+        ex = explore(loader, setup2, run2, target=tgt)
+        check.absorb(ex, f"get_exec_op_list map {where}")
+        if ex.paths:
+            check.instances_generated += 1
+        for i, p in enumerate(ex.paths):
+            pi = f"{where} (any length) path={i}"
+            check.path_obligations(p, pi)
+            if p.outcome != "return":
+                check.ob("get_exec_op_list#total", pi, p.ctx.pc, False, detail=f"raises {p.value!r}")
+                continue
+            d, img = p.state.get("derived"), p.state.get("image")
+            ok = isinstance(d, AbsSeq) and d.length is p.state["ops"].length and isinstance(img, GTok) and img.x is p.state.get("probe")
+            check.ob("get_exec_op_list#induction.map: every operand (and nothing else) is passed to get_ops, in list order", pi, p.ctx.pc, bool(ok), detail=f"{d!r} image {img!r}")
+            if where.startswith("effect_ops"):
+                r = p.value
+                check.ob("get_exec_op_list#induction: result == flat(get_ops(o) for o in effect_ops)", pi, p.ctx.pc,
+                         isinstance(r, AbsAcc) and r.ghost.get("flat_of") is d and r.tail == [], detail=repr(r))
 
 
 def gen_registered(loader, check, replay_on=True):
@@ -327,7 +496,7 @@ def gen_task(loader, check, what, replay_on=True):
     if what == "frame":
         # the text a node emits does not depend on which other node was emitted before: emitters change nothing but read /
         # declaration counters (so the two layouts, which emit in different orders, render every node identically up to DUP)
-        from . import catalog, c05
+        pass
         catalog.gen_pureexec(loader, check, replay_on)
         catalog.gen_leaf_reads(loader, check, replay_on)
         catalog.gen_misc_nodes(loader, check, replay_on)
@@ -335,6 +504,9 @@ def gen_task(loader, check, what, replay_on=True):
         c05.gen_sequence(loader, check, replay_on)
         return
     {"shapes": gen_shapes, "den": gen_den_independent, "exec_list": gen_exec_list, "registered": gen_registered, "lemma": gen_lemma}[what](loader, check, replay_on)
+    if what == "exec_list":
+        # the induction uses flatten_list(x) == flat(x): proved here as well (recursive function, own contract for the recursive calls)
+        c05.gen_flatten(loader, check, replay_on)
 
 
 def generate_reduced(loader, check):
@@ -348,6 +520,8 @@ def run(check: Check):
     check.trust("T-RZIL: den(DUP t) = den t; initialiser order within a C function body is irrelevant as long as declare-before-use holds (C11)")
     check.trust("T-IND: equal den of the bound instruction_sequence in both layouts follows from: same IR (callbacks are layout independent), "
                 "every reachable node initialised exactly once in both (coverage lemma + C12 folds), texts of reads differ only by DUP")
+    check.trust("T-IND (operand trees): get_exec_op_list(e) == concat(R(o) for o in e.effect_ops) for every finite, acyclic operand tree follows by structural "
+                "induction from the one-level unfoldings of get_ops proved for every operand kind with the recursive calls replaced by the function's own contract")
     check.assume("A-NAMES: add_op through its contract; the holder ghost list 'added' is the registration record")
     check.ob_filter = FILTER
     check.run_parallel("contracts.c16", "gen_task", [{"what": w} for w in ("shapes", "den", "exec_list", "registered", "lemma", "loops", "frame", "gcc")], workers=WORKERS,
